@@ -4,7 +4,7 @@
   specification is empty wherever it does not — provided no constraint hides behind an alias.
 -/
 import Cog.Sem.GoValidateSpec
-namespace Cog.Sem
+namespace Cog.Sem.C08
 open Cog.IR
 
 /-! ### DRes -/
@@ -563,3 +563,5 @@ theorem tvc_eq_violations (ss : Schemas) (hs : noConstrainedAlias ss = true) :
         | false => simp at hc
       | enum vs m => simp [rtc] at hr
       | bad k m => simp [rtc] at hr
+
+end Cog.Sem.C08
